@@ -6,7 +6,26 @@ import TinkVerif.Gen.MutFacts
 through a method receiver (field, element of a field-held slice/map, through a local alias), every
 call of a mutating method on a receiver-held stateful object (`hash.Hash`, `cipher.Stream`,
 `cipher.BlockMode`, `io.Reader/Writer`, `bytes.Buffer`, `big.Int`, SHAKE), every store to a
-package-level variable outside `init`.
+package-level variable outside `init` (also `otherpkg.Var = …`).
+
+Shared state by construction (facts `global-var`, `global-call`; their `owner` is the variable): every
+package-level variable whose type is or contains a `sync.Pool`, `sync.Map`, a mutex / `sync.Once`, an
+atomic or a channel, every struct field of such a type (`field-var`, owner = the struct type: state kept per
+object is shared by all goroutines using the object), and every method call on a package-level variable
+outside `init`. These are
+classified per *variable* (`allowedGlobals`): a new pool / cache / registry variable is a new,
+unclassified fact whatever function touches it. The current tree has NO `sync.Pool` at all (neither
+package-level nor in a struct): nothing is recycled between calls, streams or objects, so no `pool`
+variable is allow-listed.
+
+In-place rewriting of containers that other objects may hold (facts `recv-inplace-write`: `r.f[k] = v`,
+`delete(r.f, k)`, `clear(r.f)`, `copy(r.f, …)`, `maps.Copy(r.f, …)`, `slices.Delete(r.f, …)`, `sort.*(r.f)`,
+`append(r.f[:k], …)` on a map- or slice-typed receiver field, also through a local alias) and, for exactly
+those fields, every place where the field value is handed to other code without a copy (facts
+`recv-field-escape`: returned, stored into another object or a composite literal, passed to a call other
+than len/cap/Clone/…). These are classified one by one (`allowedFieldFacts`, exact match on package,
+function and text): a method that starts to rewrite a map it has already handed out — instead of
+replacing it — is a new fact even though its receiver type is an allow-listed builder.
 
 The property holds for this code base because primitives are immutable after construction (the
 `ReadOnly` hypothesis of `Props/C18.lean`).  Hence the expected fact set: *no* fact on any primitive
@@ -23,6 +42,14 @@ inductive Why
   | lockedGlobal  -- package-level registry written only under its mutex
   | initOnly      -- package-level table filled by functions that are only called from `init`
   | syncRegistry  -- registration API of a package-level registry backed by sync.Map / internal/syncmap (synchronised container)
+  | syncContainer -- package-level registry variable of type *internal/syncmap.Map (a typed sync.Map): every access, read or write, goes
+                  -- through the synchronised container; entries are immutable once stored (parsers, serializers, constructors, key managers)
+  | lockVar       -- the RWMutex that guards a `lockedGlobal` registry (readers take RLock, writers Lock)
+  | ownScratch    -- in-place write to a buffer / set that belongs to this one object and is only handed, for the duration of a call,
+                  -- to the segment cipher or io.Reader the object was built with (per-stream / builder objects, not shared by contract)
+  | readOnlyHelper -- the field is passed to a package-private function that only reads it (no retention, no write)
+  | beforeShared  -- in-place write happens only while the object is being constructed, before it is handed out
+  | ownGrowth     -- the callee is the in-place write itself (slices.Delete on the own field; the result is stored back)
   deriving DecidableEq, Repr
 
 /-- (package, receiver type or function) that may carry mutation facts, and why -/
@@ -69,8 +96,59 @@ def allowedOwners : List (String × String × Why) := [
   ("keyderivation/internal/keyderivers", "addXChaCha20Poly1305KeyDeriver", .initOnly)
 ]
 
-def classified (f : Fact) : Bool := allowedOwners.any fun (pkg, owner, _) => pkg == f.pkg && owner == f.owner
+/-- (package, package-level variable) of synchronisation / container type, or receiving method calls outside init, and why
+    concurrent use is safe. No `sync.Pool` exists in the current tree. -/
+def allowedGlobals : List (String × String × Why) := [
+  ("core/registry", "keyManagers", .syncContainer),
+  ("core/registry", "kmsClientsMu", .lockVar),
+  ("internal/internalregistry", "monitoringClientMu", .lockVar),
+  ("internal/keygenregistry", "keyCreators", .syncContainer),
+  ("internal/primitiveregistry", "primitiveConstructors", .syncContainer),
+  ("internal/protoserialization", "keyParsers", .syncContainer),
+  ("internal/protoserialization", "keySerializers", .syncContainer),
+  ("internal/protoserialization", "parameterParsers", .syncContainer),
+  ("internal/protoserialization", "parameterSerializers", .syncContainer),
+  -- `field-var`: struct field of sync / atomic / channel type (owner = the struct type): the typed wrapper around sync.Map itself
+  ("internal/syncmap", "Map", .syncContainer)
+]
+
+/-- (package, function, kind, text) of every in-place write to a map / slice field and of every hand-out of such a field -/
+def allowedFieldFacts : List (String × String × String × String × Why) := [
+  -- PrefixMap: filled by Insert while the wrapper primitive is constructed; afterwards only read (the iterator gets the bucket)
+  ("internal/prefixmap", "PrefixMap.Insert", "recv-inplace-write", "items : index-store", .beforeShared),
+  ("internal/prefixmap", "PrefixMap.PrimitivesMatchingPrefix", "recv-field-escape", "items : stored-into Iterator[P]{}", .beforeShared),
+  -- keyset.Manager: unavailableKeyIDs never leaves the manager; entries is copied entry by entry in Handle()
+  ("keyset", "Manager.AddKeyWithOpts", "recv-inplace-write", "unavailableKeyIDs : index-store", .builder),
+  ("keyset", "Manager.newRandomKeyID", "recv-inplace-write", "unavailableKeyIDs : index-store", .builder),
+  ("keyset", "Manager.Delete", "recv-inplace-write", "entries : slices.Delete", .builder),
+  ("keyset", "Manager.Delete", "recv-field-escape", "entries : passed-to slices.Delete", .ownGrowth),
+  ("keyset", "Manager.Delete", "recv-field-escape", "entries : passed-to findEntry", .readOnlyHelper),
+  ("keyset", "Manager.Disable", "recv-field-escape", "entries : passed-to findEntry", .readOnlyHelper),
+  ("keyset", "Manager.Enable", "recv-field-escape", "entries : passed-to findEntry", .readOnlyHelper),
+  ("keyset", "Manager.SetPrimary", "recv-field-escape", "entries : passed-to findEntry", .readOnlyHelper),
+  -- noncebased Reader / Writer: the segment buffers are allocated by NewReader / NewWriter for this one stream
+  ("streamingaead/subtle/noncebased", "Reader.Read", "recv-inplace-write", "ciphertext : index-store", .ownScratch),
+  ("streamingaead/subtle/noncebased", "Reader.Read", "recv-field-escape", "ciphertext : passed-to io.ReadFull", .ownScratch),
+  ("streamingaead/subtle/noncebased", "Reader.Read", "recv-field-escape", "ciphertext : passed-to r.segmentDecrypter.DecryptSegment", .ownScratch),
+  ("streamingaead/subtle/noncebased", "Reader.Read", "recv-field-escape", "ciphertext : passed-to r.segmentDecrypterWithDst.DecryptSegmentWithDst", .ownScratch),
+  ("streamingaead/subtle/noncebased", "Writer.Write", "recv-inplace-write", "plaintext : copy", .ownScratch),
+  ("streamingaead/subtle/noncebased", "Writer.Write", "recv-field-escape", "plaintext : passed-to w.segmentEncrypter.EncryptSegment", .ownScratch),
+  ("streamingaead/subtle/noncebased", "Writer.Write", "recv-field-escape", "plaintext : passed-to w.segmentEncrypterWithDst.EncryptSegmentWithDst", .ownScratch),
+  ("streamingaead/subtle/noncebased", "Writer.Close", "recv-field-escape", "plaintext : passed-to w.segmentEncrypter.EncryptSegment", .ownScratch),
+  ("streamingaead/subtle/noncebased", "Writer.Close", "recv-field-escape", "plaintext : passed-to w.segmentEncrypterWithDst.EncryptSegmentWithDst", .ownScratch)
+]
+
+def isGlobalKind (k : String) : Bool := k == "global-var" || k == "global-call" || k == "field-var"
+def isFieldKind (k : String) : Bool := k == "recv-inplace-write" || k == "recv-field-escape"
+
+def classified (f : Fact) : Bool :=
+  if isGlobalKind f.kind then allowedGlobals.any fun (pkg, v, _) => pkg == f.pkg && v == f.owner
+  else if isFieldKind f.kind then allowedFieldFacts.any fun (pkg, fn, kind, what, _) => pkg == f.pkg && fn == f.fn && kind == f.kind && what == f.what
+  else allowedOwners.any fun (pkg, owner, _) => pkg == f.pkg && owner == f.owner
 
 def unexpected : List Fact := facts.filter fun f => !classified f
+
+/-- variables of pool type (recycled memory shared by every user of the package) -/
+def pools : List Fact := facts.filter fun f => (f.kind == "global-var" && f.what.startsWith "pool") || (f.kind == "field-var" && (f.what.splitOn " : ").contains "pool")
 
 end TinkVerif.Gen.MutFacts
